@@ -178,7 +178,7 @@ func (o *oracle) providers(key []string) []cand {
 	last := key[len(key)-1]
 	// a defective candidate (reported once, then skipped through its placeholder) does not shadow the next one
 	var cs []cand
-	for _, c := range o.candidates(ts) {
+	for _, c := range o.prefixCandidates(key) {
 		if code, _ := o.defect(c.f, c.path); code == "" {
 			cs = append(cs, c)
 		}
@@ -201,7 +201,7 @@ func (o *oracle) providers(key []string) []cand {
 func (o *oracle) shadowedProvider(key []string) bool {
 	ts := key[:len(key)-1]
 	last := key[len(key)-1]
-	for _, c := range o.candidates(ts) {
+	for _, c := range o.prefixCandidates(key) {
 		if c.f.body.kind == "typeset" && c.f.body.defines(ts) {
 			for _, t := range c.f.body.types {
 				if strings.ToLower(t) == last {
@@ -211,6 +211,45 @@ func (o *oracle) shadowedProvider(key []string) bool {
 		}
 	}
 	return false
+}
+
+// routeSplit: in the flat topology a name M::…::T that starts with a module name is routed to module M only, yet some
+// prefix of it is the derived name of a type-set file of the GLOBAL loader (a sibling) that lists the next segment
+func (o *oracle) routeSplit(key []string) bool {
+	if o.s.via != "e" || len(key) < 2 || !o.isModule(key[0]) {
+		return false
+	}
+	for n := 1; n < len(key); n++ {
+		for i := range o.s.files {
+			f := &o.s.files[i]
+			p := o.paths[f]
+			if loaderOf(p) == "g" && keyEq(o.impliedKey(p), key[:n]) && f.body.kind == "typeset" {
+				for _, t := range f.body.types {
+					if strings.ToLower(t) == key[n] {
+						return true
+					}
+				}
+			}
+		}
+	}
+	return false
+}
+
+// prefixCandidates: the candidates of the prefix TS of the key TS::T that a lookup of TS::T can reach — the type set is
+// searched by the loaders the FULL name is routed to (in the flat topology a name that starts with a module name never
+// reaches the global loader, although the module's own name does)
+func (o *oracle) prefixCandidates(key []string) []cand {
+	vis := map[string]bool{}
+	for _, l := range o.loadersFor(key) {
+		vis[l] = true
+	}
+	var cs []cand
+	for _, c := range o.candidates(key[:len(key)-1]) {
+		if vis[c.loader] {
+			cs = append(cs, c)
+		}
+	}
+	return cs
 }
 
 // ambiguous: the key has two definition sources that do not shadow each other cleanly — files of two different loaders,
@@ -224,7 +263,7 @@ func (o *oracle) ambiguous(key []string) bool {
 	if len(key) >= 2 {
 		ts := key[:len(key)-1]
 		last := key[len(key)-1]
-		for _, c := range o.candidates(ts) {
+		for _, c := range o.prefixCandidates(key) {
 			if c.f.body.kind == "typeset" && c.f.body.defines(ts) {
 				for _, t := range c.f.body.types {
 					if strings.ToLower(t) == last {
@@ -387,6 +426,13 @@ func judge(s spec, outs []outcome, total map[string]int, out string, strict bool
 			continue
 		}
 		if len(key) == 1 && staticNames[key[0]] {
+			continue
+		}
+		if o.routeSplit(key) {
+			// flat topology only (an arrangement of the harness, not one pcore sets up): the name is routed to the module it
+			// starts with while a type set of the sibling global loader lists it — whether the member is visible depends on
+			// whether that type set has been loaded; the property demands neither answer
+			tags["route-split"] = true
 			continue
 		}
 		cands := o.candidates(key)
